@@ -220,6 +220,61 @@ _PLATFORM_FALSE = {"os.name == 'nt'", "hasattr(os, 'O_NOINHERIT')",
                    '_IS_PYPY'}
 
 
+def inline_literal_constants(tree):
+    """Normalisation: a module-level name bound exactly once, at top level, to an immutable literal (str / bytes / int /
+    float, not bool/None) is replaced by that literal wherever a function *reads* it and does not shadow it.  `X = 'utf8'`
+    ... `s.encode(X)` is analysed as `s.encode('utf8')`: moving a literal into a named constant (or back) changes
+    nothing for the rules.  The module-level binding itself stays (constant folding still sees it)."""
+    counts = {}
+    for n in ast.walk(tree):
+        if isinstance(n, ast.Name) and isinstance(n.ctx, (ast.Store, ast.Del)):
+            counts[n.id] = counts.get(n.id, 0) + 1
+        elif isinstance(n, (ast.Global, ast.Nonlocal)):
+            for nm in n.names:
+                counts[nm] = counts.get(nm, 0) + 2
+        elif isinstance(n, ast.arg):
+            counts[n.arg] = counts.get(n.arg, 0) + 0      # parameters shadow per function (handled below)
+        elif isinstance(n, (ast.Import, ast.ImportFrom)):
+            for a in n.names:
+                nm = (a.asname or a.name).split('.')[0]
+                counts[nm] = counts.get(nm, 0) + 2
+        elif isinstance(n, (ast.FunctionDef, ast.AsyncFunctionDef, ast.ClassDef)):
+            counts[n.name] = counts.get(n.name, 0) + 2
+    consts = {}
+    for st in tree.body:
+        if isinstance(st, ast.Assign) and len(st.targets) == 1 and isinstance(st.targets[0], ast.Name) and \
+                isinstance(st.value, ast.Constant) and isinstance(st.value.value, (str, bytes, int, float)) and \
+                not isinstance(st.value.value, bool) and counts.get(st.targets[0].id) == 1:
+            consts[st.targets[0].id] = st.value
+    if not consts:
+        return {}
+
+    class Inl(ast.NodeTransformer):
+        def __init__(self):
+            self.shadow = [set()]
+
+        def _fn(self, n):
+            sh = {a.arg for a in ast.walk(n.args) if isinstance(a, ast.arg)}
+            body = n.body if isinstance(n.body, list) else [n.body]
+            for st in body:
+                for x in ast.walk(st):
+                    if isinstance(x, ast.Name) and isinstance(x.ctx, ast.Store):
+                        sh.add(x.id)
+            self.shadow.append(self.shadow[-1] | sh)
+            self.generic_visit(n)
+            self.shadow.pop()
+            return n
+        visit_FunctionDef = visit_AsyncFunctionDef = visit_Lambda = _fn
+
+        def visit_Name(self, n):
+            if len(self.shadow) > 1 and isinstance(n.ctx, ast.Load) and n.id in consts and n.id not in self.shadow[-1]:
+                c = consts[n.id]
+                return ast.copy_location(ast.Constant(value=c.value), n)
+            return n
+    Inl().visit(tree)
+    return {k: v.value for k, v in consts.items()}
+
+
 class Module:
     def __init__(self, name, path, relpath, source):
         self.name = name
@@ -227,6 +282,7 @@ class Module:
         self.relpath = relpath
         self.source = source
         self.tree = ast.parse(source, filename=path)
+        self.inlined_constants = inline_literal_constants(self.tree)
         self.classes = {}
         self.functions = {}
         self.assigns = {}         # name -> list of value exprs, in order
